@@ -147,6 +147,8 @@ def gen_case(rng, tier, kind=None):
             if kind == "gmm_map":
                 cfg["rf"] = rng.choice([None, 0.5, 4.0, 16.0])
                 cfg["alpha"] = rng.choice([0.1, 0.5, 0.9])
+                if rng.random() < 0.2:  # per-component adaptation ratios (array form)
+                    cfg["alpha"] = [rng.choice([0.0, 0.1, 0.5, 0.9, 1.0]) for _ in range(c)]
             if kind == "gmm_kminit":
                 cfg["km_iter"] = rng.randint(0, 4)
                 cfg["km_thr"] = rng.choice([None, 1e-5])
@@ -226,6 +228,10 @@ def gen_case(rng, tier, kind=None):
         rng.shuffle(mask)
         case["nan_mask"] = mask
         case["nan_chunks"] = random_composition(rng, len(mask), rng.randint(1, min(len(mask), 8)))
+    if not case.get("nan_mask") and rng.random() < 0.08:
+        # the Dask array is an unevaluated expression (exactly representable: x/2*2), built
+        # from two concatenated pieces, rather than a wrapped in-memory array
+        case["lazy_expr"] = True
     if "y" in case and rng.random() < 0.2:
         case["ydtype"] = rng.choice(["int32", "int16", "uint8", "tuple"])
     if kind in ("kmeans", "gmm_ml", "gmm_map") and case.get("thr") not in (None, 0.0) \
@@ -382,7 +388,8 @@ def _make(case, max_steps, thr):
             kw["mean_var_update_threshold"] = cfg["mvut"]
         if kind == "gmm_map":
             prior = _mk_ubm(cfg)
-            return GMMMachine(cfg["c"], trainer="map", ubm=prior, map_alpha=cfg["alpha"],
+            alpha = A(cfg["alpha"]) if isinstance(cfg["alpha"], list) else cfg["alpha"]
+            return GMMMachine(cfg["c"], trainer="map", ubm=prior, map_alpha=alpha,
                               map_relevance_factor=cfg["rf"], **kw)
         if kind == "gmm_kminit":
             km = KMeansMachine(cfg["c"], init_method=A(cfg["means"]), max_iter=cfg["km_iter"],
@@ -503,6 +510,11 @@ def _dask_X(case, X, reverse=False):
         keep = da.from_array(mask, chunks=(tuple(case["nan_chunks"]),))
         return bd[keep]
     chunks = tuple(case["chunks"][::-1] if reverse else case["chunks"])
+    if case.get("lazy_expr") and X.dtype.kind == "f" and len(chunks) > 1 and not case.get("fchunks"):
+        cut = chunks[0]
+        a = da.from_array(X[:cut] * 0.5, chunks=((cut,), (X.shape[1],)))
+        b = da.from_array(X[cut:] * 0.5, chunks=(chunks[1:], (X.shape[1],)))
+        return da.concatenate([a, b], axis=0) * 2.0
     f = case.get("fchunks")
     return da.from_array(X, chunks=(chunks, tuple(f) if f else (X.shape[1],)))
 
@@ -546,6 +558,7 @@ def run_case(case, replay=None):
     rec.probe("uneven_blocks", nblocks > 1 and max(case["chunks"]) >= 5 * min(case["chunks"]))
     rec.probe("feature_chunked", bool(case.get("fchunks")))
     rec.probe("unknown_chunk_sizes", bool(case.get("nan_mask")))
+    rec.probe("lazy_expression_input", bool(case.get("lazy_expr")))
     rec.probe("mode_" + case["sched"]["mode"])
     rec.probe("fault_free_configuration", bool(case.get("fault_free")))
 
